@@ -5,7 +5,7 @@ PROPERTY = "C03"
 
 
 def tasks(tier):
-    return (contract_tasks("contracts.dataplane", "C03", tier=tier) + contract_tasks("contracts.connect", "C03", tier=tier)
+    return (contract_tasks("contracts.world_connect", "C03") + contract_tasks("contracts.dataplane", "C03", tier=tier) + contract_tasks("contracts.connect", "C03", tier=tier)
             + contract_tasks("contracts.sim_process", "C03", tier=tier, names=["GetOutputs"])
             + other_tasks("contracts.dataplane_bounded", "C03", "bounded") + other_tasks("contracts.determinism_bounded", "C03", "bounded")
             + other_tasks("contracts.connect_bounded", "C03", "bounded")
